@@ -236,7 +236,7 @@ def check_streams(case):
           r.bad('C15/streams/open-wrong-error/%s' % got[1], '%s: %r' % (when, got))
         open_ids[local] = len(streams) - 1
         ent['state'] = 'zombie'
-    elif kind in ('close', 'read', 'write'):
+    elif kind in ('close', 'read', 'write', 'drain'):
       live = [e for e in streams if e['stream'] is not None]
       if not live:
         continue
@@ -259,6 +259,44 @@ def check_streams(case):
             r.bad('C15/streams/CLSE-count', '%s: %d CLSE packets for stream %d after a local close (expected exactly 1)' % (when, after, ent['local']))
         elif after != before:
           r.bad('C15/streams/CLSE-count', '%s: closing an already closed stream sent another CLSE (%d -> %d)' % (when, before, after))
+      elif kind == 'drain':
+        # the other way of reading: the read_until_close() generator
+        sc = ent['script']
+        chunks, err = [], None
+        try:
+          for c in s.read_until_close(timeout_ms=120):
+            chunks.append(c)
+            if len(chunks) > 50:
+              break
+        except Exception as e:  # pylint: disable=broad-except
+          err = (type(e).__name__, str(e)[:60])
+        all_data = ''.join(sc.get('wrtes', []))
+        consumed = ent.setdefault('consumed', 0)
+        remaining = all_data[consumed:]
+        d = ''.join(chunks)
+        flags['drains'] = flags.get('drains', 0) + 1
+        if not remaining.startswith(d):
+          r.bad('C15/streams/read-wrong-data', '%s: read_until_close() yielded %r, stream has %r left' % (when, d[:30], remaining[:30]))
+        ent['consumed'] = consumed = consumed + len(d)
+        if err is not None:
+          if err[0] not in ('AdbTimeoutError', 'UsbReadFailedError'):
+            r.bad('C15/streams/read-wrong-error/%s' % err[0], '%s: read_until_close() raised %r' % (when, err))
+        else:
+          # the generator ended: the stream reported closed
+          acked = ''.join(sc.get('wrtes', [])[:count_host(dev, 'OKAY', ent['local'])])
+          if len(acked) > consumed:
+            r.bad('C15/streams/buffered-data-not-drained', '%s: read_until_close() on a stream in state %s ended, but %r was received and acknowledged and never yielded' % (
+                when, ent['state'], acked[consumed:][:30]))
+          if ent['state'] == 'open' and not sc.get('close'):
+            r.bad('C15/streams/closed-error-on-open-stream', '%s: read_until_close() ended although the stream is open on both sides' % when)
+          if ent['state'] == 'open' and sc.get('close'):
+            if all_data[consumed:]:
+              r.bad('C15/streams/data-lost-at-remote-close', '%s: read_until_close() ended with %r undelivered' % (when, all_data[consumed:][:30]))
+            n = count_host(dev, 'CLSE', ent['local'])
+            if n != 1:
+              r.bad('C15/streams/CLSE-count', '%s: remote close answered with %d CLSE packets (expected exactly 1)' % (when, n))
+            ent['state'] = 'closed'
+            open_ids.pop(ent['local'], None)
       elif kind == 'read':
         sc = ent['script']
         if ent['state'] != 'open' and any(e is not ent and e['local'] == ent['local'] and streams.index(e) > streams.index(ent) for e in streams):
@@ -346,7 +384,7 @@ def stream_cases(draw):
   n = draw(st.integers(2, 14))
   ops = []
   for _ in range(n):
-    kind = draw(st.sampled_from(['open', 'open', 'open', 'open', 'close', 'close', 'read', 'read', 'write', 'illegal']))
+    kind = draw(st.sampled_from(['open', 'open', 'open', 'open', 'close', 'close', 'read', 'read', 'write', 'illegal', 'drain']))
     if kind == 'open':
       how = draw(st.sampled_from(['OKAY'] * 8 + ['CLSE', 'WRTE', 'WRONGID', 'SILENT']))
       wr = draw(st.lists(st.text(alphabet='abcdef', min_size=1, max_size=5), max_size=2)) if how == 'OKAY' else []
@@ -355,6 +393,8 @@ def stream_cases(draw):
       ops.append(['close', draw(st.integers(0, 7))])
     elif kind == 'read':
       ops.append(['read', draw(st.integers(0, 7)), draw(st.sampled_from([0, 0, 1, 3]))])
+    elif kind == 'drain':
+      ops.append(['drain', draw(st.integers(0, 7))])
     elif kind == 'write':
       ops.append(['write', draw(st.integers(0, 7)), draw(st.sampled_from([1, 16, 17, 40]))])
     else:
